@@ -350,7 +350,10 @@ func subMalformed() mon.Sub {
 			cases = append(cases, bad{"duplicate/" + n + "/value-then-bare", [][2]string{{n, good[n]}, {n, nv}}})
 			cases = append(cases, bad{"duplicate/" + n + "/bare-then-value", [][2]string{{n, nv}, {n, good[n]}}})
 			cases = append(cases, bad{"duplicate/" + n + "/different-values", [][2]string{{n, "9"}, {n, "12"}}})
-			for _, v := range []string{"7", "16", "0", "255", "abc", "1 5", "-8", "8.0", "99999999999999999999"} {
+			for _, v := range []string{"7", "16", "0", "255", "abc", "1 5", "-8", "8.0", "99999999999999999999",
+				// values congruent to a valid one modulo 2^64 / 2^32 / 2^16 / 2^8 (a conversion that wraps silently)
+				"18446744073709551624", "18446744073709551631", "36893488147419103242", "4294967304", "4294967311", "65544", "65551", "264", "271",
+				"+8", "+15", "0xA", "1e1", "10.", "1_0", "١٠"} {
 				cases = append(cases, bad{"ill-valued/" + n + "/" + v, [][2]string{{n, v}}})
 			}
 		} else {
@@ -498,7 +501,7 @@ func main() {
 	mon.Main(&mon.Spec{
 		Property: "C14",
 		Level:    "exploration",
-		Rule: "exhaustive: the full grid of 324 server configurations (2x2x9x9) x 360 single offers (2x2x9x10) = 116640 negotiations by fresh negotiators, each accepted answer parsed and checked against RFC 7692 §7.1 legality (ref.PMCEIllegal); all malformed parameter lists (unknown names, each parameter duplicated same/value-then-bare/bare-then-value/different, values {7,16,0,255,abc,'1 5',-8,8.0,overflow}, value on a flag, no value on server_max_window_bits) alone and embedded among valid parameters x 47 configurations must yield an error from Negotiate and Parse; Parse/Option inverse for all 360 parameter sets through the wire text. " +
+		Rule: "exhaustive: the full grid of 324 server configurations (2x2x9x9) x 360 single offers (2x2x9x10) = 116640 negotiations by fresh negotiators, each accepted answer parsed and checked against RFC 7692 §7.1 legality (ref.PMCEIllegal); all malformed parameter lists (unknown names, each parameter duplicated same/value-then-bare/bare-then-value/different, values {7,16,0,255,abc,'1 5',-8,8.0,10^20-1, valid+k*2^64/2^32/2^16/2^8, +8, 0xA, 1e1, '10.', 1_0, non-ASCII digits}, value on a flag, no value on server_max_window_bits) alone and embedded among valid parameters x 47 configurations must yield an error from Negotiate and Parse; Parse/Option inverse for all 360 parameter sets through the wire text. " +
 			"sampled: lists of up to 3 offers (+ non-deflate extensions in between) negotiated by one negotiator directly and through the real ws.Upgrader header path (single header and repeated headers): at most one accepted, it is the first one a fresh negotiator accepts alone, its answer is legal, Accepted() reports it; negotiators after 1-4 negotiations (accept/decline/parse error/foreign extension) + Reset vs new ones. distinct = (config, offer class) etc.",
 		Assumptions: []string{"ref.PMCEIllegal transcribes RFC 7692 §7.1.1-7.1.2 / the clauses of the statement", "declining an acceptable offer is not a violation", "leading zeros in window values are left open"},
 		Subs:        []mon.Sub{subGrid(), subLists(), subMalformed(), subInverse(), subReset()},
